@@ -24,6 +24,8 @@ import (
 //     <err>: "_" = no error, else hex of the error text ("-" = empty text)
 // result: ok <answers> <unwrapped length> <kind> <fields…> | enc-error | pack-error | unpack-error |
 //         dec-error <answers> <unwrapped length> | PANIC
+//   par <G> <iters> <op> { ; <op> }      the listed ops processed concurrently (c09_par.go): the downstream codec
+//                                        singletons, wrap.go and the serializers serve every session of the server
 
 var rrTypes = map[string]dnsmessage.Type{}
 
@@ -167,12 +169,51 @@ func renderResponse(r commands.Response) string {
 
 type dnsrespComp struct{}
 
+// questionNameFor: the query the answer replies to — a name under the tunnel domain as the server receives it from
+// the wire, i.e. always fully qualified exactly once, however the domain is spelled in the configuration (with its
+// final dot or without).  For a domain without a final dot this is "cabc00.<domain>." as before.
+func questionNameFor(domain string) string {
+	if endsInUnescapedDot(domain) {
+		return "cabc00." + domain
+	}
+	return "cabc00." + domain + "."
+}
+
+// endsInUnescapedDot: a final '.' preceded by an even number of backslashes
+func endsInUnescapedDot(s string) bool {
+	if !strings.HasSuffix(s, ".") {
+		return false
+	}
+	n := 0
+	for i := len(s) - 2; i >= 0 && s[i] == '\\'; i-- {
+		n++
+	}
+	return n%2 == 0
+}
+
 func (c dnsrespComp) Exec(op string) (string, string, string, bool) {
 	return c.run(op, nil)
 }
 
 func (dnsrespComp) run(op string, rec *[]string) (result, monitor, class string, nontrivial bool) {
 	t := strings.Fields(op)
+	if len(t) > 0 && t[0] == "par" {
+		G, iters, subs, ok := splitPar(t)
+		if !ok || rec != nil {
+			return "bad-op", "", "bad-op", false
+		}
+		for _, s := range subs {
+			if strings.HasPrefix(s, "par") {
+				return "bad-op", "", "bad-op", false
+			}
+		}
+		var c dnsrespComp
+		res, mon, allOK := runPar(func(op string) (string, string) {
+			r, m, _, _ := c.run(op, nil)
+			return r, m
+		}, G, iters, subs)
+		return res, mon, fmt.Sprintf("par/n%d", (len(subs)+3)/4*4), allOK
+	}
 	if len(t) < 6 {
 		return "bad-op", "", "bad-op", false
 	}
@@ -224,7 +265,7 @@ func (dnsrespComp) run(op string, rec *[]string) (result, monitor, class string,
 
 	ser := commands.Serializer{Downstream: util.DownstreamConfig{Encoder: codec}, Domain: domain}
 	q := new(dns.Msg)
-	q.SetQuestion("cabc00."+domain+".", uint16(qt))
+	q.SetQuestion(questionNameFor(domain), uint16(qt))
 	msg, err := ser.EncodeDnsResponseWithParams(resp, q, qt, codec)
 	if err != nil {
 		return "enc-error", "", class + "/enc-error", false
@@ -256,6 +297,11 @@ func (dnsrespComp) run(op string, rec *[]string) (result, monitor, class string,
 }
 
 func (c dnsrespComp) emitResp(emit func(string), letter, domain, rr, fields string) {
+	emit(c.mkResp(letter, domain, rr, fields))
+}
+
+// mkResp: the op line, with the codec look-up table of this very case where the model needs one
+func (c dnsrespComp) mkResp(letter, domain, rr, fields string) string {
 	op := fmt.Sprintf("%s %s %s - %s", letter, domain, rr, fields)
 	if oracleCodec(letter) {
 		rec := []string{}
@@ -265,7 +311,7 @@ func (c dnsrespComp) emitResp(emit func(string), letter, domain, rr, fields stri
 		}()
 		op = fmt.Sprintf("%s %s %s %s %s", letter, domain, rr, oracleToken(rec), fields)
 	}
-	emit(op)
+	return op
 }
 
 func btoi(b bool) int {
@@ -370,6 +416,40 @@ func (c dnsrespComp) Gen(r *Rand, tier string, emit func(string)) {
 	}
 	// (5) escaping x chunk boundaries (see boundarySweep)
 	c.boundarySweep(r, thorough, emit)
+	// (6) the same path for several responses at the same moment
+	c.genPar(r, thorough, emit)
+	// (7) the tunnel domain as configured (final dot, case, one label / many, long, characters that need escaping,
+	// malformed): every spelling x record type x codec x a few sizes.  Wrapping writes the domain, unwrapping
+	// measures it: both sides must agree on every spelling, or fail with an error.
+	for _, sp := range domainSpellings() {
+		for _, rr := range respRRs {
+			ks := []string{"T", "S", "W", "V"}
+			if rr == "txt" || rr == "null" || thorough {
+				ks = append(ks, "R")
+			}
+			if thorough {
+				ks = append(ks, "U", "X")
+			}
+			for _, k := range ks {
+				// A and AAAA carry whole records only: pick lengths whose stream is a multiple of 3 / 14 now and then
+				lens := []int{1 + r.Intn(6), 8 + r.Intn(20), 30 + r.Intn(40)}
+				if thorough {
+					lens = append(lens, 0, 7, 14, 57, 100, 150)
+				}
+				c.emitResp(emit, k, sp.domain, rr, fmt.Sprintf("c _ %d 0 0 -", r.Intn(65536)))
+				c.emitResp(emit, k, sp.domain, rr, fmt.Sprintf("v %d %d _", r.Next()&0xFFFFFFFF, r.Intn(1296)))
+				for _, n := range lens {
+					data := stressBytes(r, n, r.Intn(2))
+					if k == "R" {
+						for i := range data {
+							data[i] = base36[int(data[i])%36]
+						}
+					}
+					c.emitResp(emit, k, sp.domain, rr, fmt.Sprintf("c _ %d 1 %d %s", r.Intn(65536), r.Intn(65536), hexs(data)))
+				}
+			}
+		}
+	}
 	// (4) random
 	n := 600
 	if thorough {
@@ -396,6 +476,96 @@ func (c dnsrespComp) Gen(r *Rand, tier string, emit func(string)) {
 			f = fmt.Sprintf("c _ %d 1 %d %s", r.Intn(65536), r.Intn(65536), hexs(stressBytes(r, r.Intn(1300), r.Intn(5))))
 		}
 		c.emitResp(emit, k, domain, rr, f)
+	}
+}
+
+// genPar: batches of responses processed concurrently (see c09_par.go).  Members differ in what shared state would
+// mix up: the user's numbers and payload (equal and different lengths), the codec, the record type, the response kind.
+func (c dnsrespComp) genPar(r *Rand, thorough bool, emit func(string)) {
+	G, iters, rounds := 24, 30, 1
+	if thorough {
+		G, iters, rounds = 48, 100, 4
+	}
+	// payload lengths that wrap, pack and unwrap for the record type (a failing member only repeats an error)
+	lenFor := func(rr string) int {
+		switch rr {
+		case "a":
+			return 3 * (1 + r.Intn(20))
+		case "aaaa":
+			return 14 * (1 + r.Intn(12))
+		case "srv":
+			return 1 + r.Intn(24)
+		case "cname", "mx":
+			return 1 + r.Intn(90)
+		}
+		return 1 + r.Intn(400)
+	}
+	packet := func(k, rr string, n int) string {
+		if k == "R" && (rr == "a" || rr == "aaaa") {
+			n -= 6 // the stream is 6 + n bytes: keep the last record full
+			if n < 0 {
+				n = 0
+			}
+		}
+		mode := r.Intn(2)
+		if k == "R" && (rr == "cname" || rr == "mx" || rr == "srv") {
+			return c.mkResp(k, "example.org", rr, fmt.Sprintf("c _ %d 1 %d %s", r.Intn(65536), r.Intn(65536), hexs([]byte(base36[:1+n%30]))))
+		}
+		return c.mkResp(k, "example.org", rr, fmt.Sprintf("c _ %d 1 %d %s", r.Intn(65536), r.Intn(65536), hexs(stressBytes(r, n, mode))))
+	}
+	other := func(k, rr string) string {
+		switch r.Intn(5) {
+		case 0:
+			return c.mkResp(k, "example.org", rr, fmt.Sprintf("v %d %d _", r.Next()&0xFFFFFFFF, r.Intn(1296)))
+		case 1:
+			return c.mkResp(k, "example.org", rr, "c "+hexs([]byte(commands.BadErrors[r.Intn(len(commands.BadErrors))].Error()))+" 0 0 0 -")
+		case 2:
+			return c.mkResp(k, "example.org", rr, "y _ "+hexs(util.DownloadCodecCheck))
+		case 3:
+			return c.mkResp(k, "example.org", rr, fmt.Sprintf("c _ %d 0 0 -", r.Intn(65536)))
+		}
+		return c.mkResp(k, "example.org", rr, "o _")
+	}
+	batch := func(ms []string) {
+		emit(fmt.Sprintf("par %d %d %s", G, iters, strings.Join(ms, " "+parSep+" ")))
+	}
+	for round := 0; round < rounds; round++ {
+		// one codec, one record type, several users
+		for i, k := range respCodecs {
+			rr := []string{"txt", "null", "cname", "mx", "priv", "txt", "txt"}[(i+round)%7]
+			for _, equal := range []bool{true, false} {
+				n := lenFor(rr)
+				var ms []string
+				for j := 0; j < 8; j++ {
+					if !equal {
+						n = lenFor(rr)
+					}
+					ms = append(ms, packet(k, rr, n))
+				}
+				if !equal {
+					ms[6] = ms[0]
+					ms[7] = other(k, rr)
+				}
+				batch(ms)
+			}
+		}
+		// everything mixed
+		for b := 0; b < 8; b++ {
+			var ms []string
+			for j := 0; j < 12; j++ {
+				k := respCodecs[(b+j)%len(respCodecs)]
+				rr := respRRs[(b*5+j)%len(respRRs)]
+				if b%4 == 3 && j%2 == 0 {
+					k = "V"
+				}
+				if j%4 == 3 {
+					ms = append(ms, other(k, rr))
+				} else {
+					ms = append(ms, packet(k, rr, lenFor(rr)))
+				}
+			}
+			batch(ms)
+		}
 	}
 }
 
